@@ -100,6 +100,7 @@ func val(v ssa.Value) J {
 			case constant.String:
 				j["v"] = constant.StringVal(x.Value)
 				j["str"] = true
+				j["hex"] = hex.EncodeToString([]byte(constant.StringVal(x.Value)))
 			case constant.Int:
 				j["v"] = x.Value.ExactString()
 			default:
@@ -357,7 +358,7 @@ func main() {
 	dir := flag.String("dir", "/repo", "module directory")
 	tags := flag.String("tags", "", "build tags")
 	out := flag.String("o", "", "output file")
-	stdpk := flag.String("std", "crypto/subtle,encoding/binary,bytes", "std packages whose reached functions are dumped with bodies")
+	stdpk := flag.String("std", "crypto/subtle,encoding/binary,bytes,encoding/hex", "std packages whose reached functions are dumped with bodies")
 	flag.Parse()
 
 	cfg := &packages.Config{
